@@ -127,7 +127,15 @@ async fn one(case: &Value) -> Value {
     let client = reqwest::Client::new();
     let v: Value = client.post(format!("{base}/threads/ensure")).send().await.unwrap().json().await.unwrap_or(Value::Null);
     let thread = v["thread_id"].as_str().unwrap_or("").to_string();
-    let actors: Vec<Value> = case["actors"].as_array().cloned().unwrap_or_default();
+    // @@WS@@ in an actor's input / command is the absolute workspace path (bash runs in the process's cwd)
+    let ws_abs = ws.to_string_lossy().to_string();
+    let actors: Vec<Value> = case["actors"]
+        .as_array()
+        .cloned()
+        .unwrap_or_default()
+        .into_iter()
+        .map(|a| serde_json::from_str::<Value>(&a.to_string().replace("@@WS@@", &ws_abs)).unwrap_or(a))
+        .collect();
     let mode = get_str(case, "mode").unwrap_or("hold");
     let mut launched: Vec<Launched> = Vec::new();
     let mut held = false;
@@ -179,7 +187,7 @@ async fn one(case: &Value) -> Value {
         }
         tokio::time::sleep(Duration::from_millis(15)).await;
     }
-    tokio::time::sleep(Duration::from_millis(40)).await;
+    tokio::time::sleep(Duration::from_millis(40 + get_u64(case, "linger_ms").unwrap_or(0))).await;
     h.set_jitter(None);
     h.set_record(false);
     let trace: Vec<Value> = h
